@@ -30,6 +30,7 @@ class ScenUnit:
 
     def run(self, tu, workdir):
         t0 = time.time()
+        U.SHARED.setdefault("workdir", workdir)
         failed, samples = [], []
         n_ob = n_ok = 0
         cx = None
